@@ -75,6 +75,32 @@ theorem rebroadcast_answer_signs_nothing (st : St) (i : Nat) (nf : Bool) (a : An
   simp only [step, answer, hp, ansRB]
   cases a <;> simp [setPhase, setSub, finish, emit]
 
+/-- **never re-signed**: in every reachable state, every signature made during a step is for a
+    submission that had NO accepted broadcast before the step — once the broadcast of a submission
+    has been accepted (success or mempool-cache hit), the client never signs for it again,
+    whatever the node answers afterwards (pending, evicted, unknown, rejected, errors) and whatever
+    the other submissions do. -/
+theorem never_resigned (ops : List Op) (op : Op) (j k : Nat) (tx : Tx)
+    (h : Event.sign j k tx ∈ (step (run {} ops) op).events) :
+    (getSub (run {} ops) j).acc = none :=
+  (w_step (wf_run ops) op).sg j k tx h
+
+/-- reachable states are well formed: a submission sits in the mutex queue exactly when it waits
+    for the mutex, in a `OnceCell` queue exactly when it waits for that cell (each at most once),
+    and a submission has an accepted transaction only in the confirmation phases -/
+theorem reachable_wf (ops : List Op) : WF (run {} ops) := wf_run ops
+
+/-- **the pending broadcast / simulation is the transaction just signed**: after any step, a
+    submission whose request inside the critical section carries transaction `k` signed `k` as its
+    last signature of the step, or signed nothing in this step and had the same request pending
+    before.  Together with `seq_discipline`: every transaction broadcast inside the critical
+    section was signed with the sequence believed current at that moment. -/
+theorem broadcast_is_last_signed (st : St) (op : Op) (j k : Nat)
+    (h : (getSub (step st op) j).phase = .reqB k ∨ (getSub (step st op) j).phase = .reqE k) :
+    lastSign j (step st op).events = some k ∨
+    (lastSign j (step st op).events = none ∧ (getSub st j).phase = (getSub (step st op) j).phase) :=
+  pb_step st op j k h
+
 /-- **`extract_sequence` on the message grammar**: for every message
     `pre ++ "account sequence mismatch, expected " ++ digits ++ "," ++ rest` in which the pattern does
     not occur earlier, the parser returns the decimal value of `digits` when it fits a `u64`, and
